@@ -1,1 +1,187 @@
 use super::*;
+use crate::verif_common::*;
+
+fn async_frame<const Q: usize, const B: usize>() {
+    let h = any_header();
+    let q: [u8; Q] = kani::any();
+    let b: [u8; B] = kani::any();
+    let m = Message { header: h, query: q.to_vec(), body: b.to_vec() };
+    let mut out: Vec<u8> = Vec::with_capacity(64);
+    let r = block_on_ready(write_message_async(&mut out, &m));
+    assert!(r.is_ok());
+    std::mem::forget(r);
+    let hb = spec_header_bytes(&h);
+    assert!(out.len() == 48 + Q + B, "async writer emitted a different number of bytes");
+    let mut i = 0;
+    while i < 48 {
+        assert!(out[i] == hb[i], "async writer: header differs from the REPE layout");
+        i += 1;
+    }
+    let mut j = 0;
+    while j < Q {
+        assert!(out[48 + j] == q[j]);
+        j += 1;
+    }
+    let mut k = 0;
+    while k < B {
+        assert!(out[48 + Q + k] == b[k]);
+        k += 1;
+    }
+    // byte-identical to the buffered route
+    let v = m.to_vec();
+    assert!(v.len() == out.len());
+    std::mem::forget(v);
+    std::mem::forget(out);
+    std::mem::forget(m);
+}
+
+//@ prop: C01
+//@ tier: quick
+//@ clause: the async emission route (write_message_async) yields exactly 48 spec-layout header bytes, then the query, then the body, like the buffered route
+//@ funcs: async_io::write_message_async; Header::encode
+//@ symbolic: all 11 header fields (full width, inconsistent lengths included), query and body bytes
+//@ bounds: |query|=2, |body|=3; writer = tokio's in-memory AsyncWrite for Vec<u8> (never Pending); unwind 55
+//@ oracle: independent REPE v1 (offset,width) table || query || body
+#[kani::proof]
+#[kani::unwind(55)]
+fn c01_async_write_message_q2_b3() {
+    async_frame::<2, 3>();
+}
+
+// ---- C02: async readers over an in-memory reader (tokio's AsyncRead for &[u8]) ----
+const ABUF: usize = 56;
+fn ale64(b: &[u8; ABUF], o: usize) -> u64 {
+    u64::from_le_bytes([b[o], b[o + 1], b[o + 2], b[o + 3], b[o + 4], b[o + 5], b[o + 6], b[o + 7]])
+}
+fn apin(d: &mut [u8; ABUF], q: u64, b: u64) {
+    let qb = q.to_le_bytes();
+    let bb = b.to_le_bytes();
+    let mut i = 0;
+    while i < 8 {
+        d[24 + i] = qb[i];
+        d[32 + i] = bb[i];
+        i += 1;
+    }
+}
+fn aframe_ok(d: &[u8; ABUF], eof: usize) -> bool {
+    let len = ale64(d, 0) as u128;
+    let q = ale64(d, 24) as u128;
+    let b = ale64(d, 32) as u128;
+    d[8] == 0x07 && d[9] == 0x15 && len == 48 + q + b && eof as u128 >= 48 + q + b
+}
+
+fn async_read_message<const Q: u64, const B: u64, const EOF: usize>() {
+    let mut d: [u8; ABUF] = kani::any();
+    apin(&mut d, Q, B);
+    let mut r: &[u8] = &d[..EOF];
+    let res = block_on_ready(read_message_async(&mut r));
+    match &res {
+        Ok(m) => {
+            assert!(aframe_ok(&d, EOF), "read_message_async accepted an inconsistent or truncated frame");
+            assert!(m.query.len() == Q as usize && m.body.len() == B as usize);
+            let mut i = 0;
+            while i < Q as usize {
+                assert!(m.query[i] == d[48 + i]);
+                i += 1;
+            }
+            let mut j = 0;
+            while j < B as usize {
+                assert!(m.body[j] == d[48 + Q as usize + j]);
+                j += 1;
+            }
+            assert!(r.len() == EOF - 48 - (Q + B) as usize, "reader consumed bytes beyond the frame");
+        }
+        Err(_) => {}
+    }
+    kani::cover!(res.is_ok() || EOF < 48 + (Q + B) as usize);
+    kani::cover!(res.is_err());
+    std::mem::forget(res);
+}
+
+macro_rules! c02_async {
+    ($name:ident, $unw:expr, $body:expr) => {
+        #[kani::proof]
+        #[kani::stub(std::alloc::alloc, crate::verif_common::alloc_stub)]
+        #[kani::stub(std::alloc::alloc_zeroed, crate::verif_common::alloc_zeroed_stub)]
+        #[kani::stub(std::alloc::realloc, crate::verif_common::realloc_stub)]
+        #[kani::unwind($unw)]
+        fn $name() {
+            $body
+        }
+    };
+}
+
+//@ name: c02_async_rm_q2b3_trailing
+//@ prop: C02
+//@ tier: experimental
+//@ clause: read_message_async on hostile bytes never panics and returns Ok only for a complete consistent frame whose query/body are the stream bytes, leaving the bytes after the frame unread
+//@ funcs: async_io::read_message_async; io::try_zeroed_vec; Header::decode; Message::new
+//@ symbolic: 56 stream bytes (every bit except the two declared payload lengths)
+//@ bounds: query_length=2, body_length=3; stream = first 56 bytes (3 trailing); in-memory reader (never Pending); unwind 12
+//@ oracle: u128 consistency predicate on the raw stream bytes
+//@ stubs: std::alloc::alloc / alloc_zeroed / realloc -> null for requests >= 2^62 bytes
+//@ replay: playback
+c02_async!(c02_async_rm_q2b3_trailing, 12, async_read_message::<2, 3, 56>());
+
+//@ name: c02_async_rm_q2b3_trunc1
+//@ prop: C02
+//@ tier: experimental
+//@ clause: as c02_async_rm_q2b3_trailing: stream truncated one byte before the frame end must be an error
+//@ funcs: async_io::read_message_async; io::try_zeroed_vec; Header::decode; Message::new
+//@ symbolic: as c02_async_rm_q2b3_trailing
+//@ bounds: query_length=2, body_length=3; stream = first 52 bytes; unwind 12
+//@ oracle: Ok is impossible
+//@ stubs: std::alloc::alloc / alloc_zeroed / realloc -> null for requests >= 2^62 bytes
+//@ replay: playback
+c02_async!(c02_async_rm_q2b3_trunc1, 12, async_read_message::<2, 3, 52>());
+
+//@ name: c02_async_rm_unallocatable
+//@ prop: C02
+//@ tier: experimental
+//@ clause: a header declaring a never-allocatable query or body (>= 2^62 bytes) makes read_message_async return an error: no panic, no process abort
+//@ funcs: async_io::read_message_async; io::try_zeroed_vec; Header::decode
+//@ symbolic: all header bits with query_length >= 2^62 (body <= 8 or >= 2^62) or query_length <= 1 and body_length >= 2^62; stream bytes
+//@ bounds: 56-byte stream; allocator refuses exactly the requests >= 2^62 bytes; unwind 12
+//@ oracle: result is Err
+//@ stubs: std::alloc::alloc / alloc_zeroed / realloc -> null for requests >= 2^62 bytes
+//@ replay: playback
+c02_async!(c02_async_rm_unallocatable, 12, {
+    let d: [u8; ABUF] = kani::any();
+    let q = ale64(&d, 24);
+    let b = ale64(&d, 32);
+    kani::assume((q >= (1u64 << 62) && (b <= 8 || b >= (1u64 << 62))) || (q <= 1 && b >= (1u64 << 62)));
+    let mut r: &[u8] = &d[..];
+    let res = block_on_ready(read_message_async(&mut r));
+    assert!(res.is_err(), "a frame that cannot exist was accepted");
+    kani::cover!(d[8] == 0x07 && d[9] == 0x15 && ale64(&d, 0) == 48u64.wrapping_add(q).wrapping_add(b) && (q as u128 + b as u128) < (1u128 << 63));
+    std::mem::forget(res);
+});
+
+//@ name: c02_async_rmi_overflow_class
+//@ prop: C02
+//@ tier: quick
+//@ clause: read_message_into_async with a consistent header declaring a size beyond isize::MAX returns an error instead of panicking with "capacity overflow"
+//@ funcs: async_io::read_message_into_async; io::try_reserve; Header::decode
+//@ symbolic: every header bit except magic and the three (consistent) length fields; stream bytes
+//@ bounds: query_length=1, body_length=2^63; 56-byte stream; unwind 50
+//@ oracle: result is Err
+//@ stubs: std::alloc::alloc / alloc_zeroed / realloc -> null for requests >= 2^62 bytes
+//@ replay: playback
+c02_async!(c02_async_rmi_overflow_class, 50, {
+    let mut d: [u8; ABUF] = kani::any();
+    apin(&mut d, 1, 1u64 << 63);
+    let tb = (49u64 + (1u64 << 63)).to_le_bytes();
+    let mut i = 0;
+    while i < 8 {
+        d[i] = tb[i];
+        i += 1;
+    }
+    d[8] = 0x07;
+    d[9] = 0x15;
+    let mut r: &[u8] = &d[..];
+    let mut buf: Vec<u8> = Vec::new();
+    let res = block_on_ready(read_message_into_async(&mut r, &mut buf));
+    assert!(res.is_err(), "a frame that cannot exist was accepted");
+    std::mem::forget(res);
+    std::mem::forget(buf);
+});
